@@ -329,13 +329,13 @@ def parse_challenge(line):
 # ------------------------------------------------------------------ one sequence
 
 def run_sequence(ctx, env, symbols, case, split_rng=None, proto_cls=MonBusProtocol, mechs=None, creds=True,
-                 scripts=None):
+                 scripts=None, creds_tuple=None):
     """Line-by-line adaptive run with the model as online oracle.  Returns transcript."""
     mechs = mechs or ['EXTERNAL', 'DBUS_COOKIE_SHA1', 'ANONYMOUS']
     if scripts is not None:
         ScriptMech.script = list(scripts)
         ScriptMech.log = []
-    s = Session(proto_cls, creds=CREDS if creds else (0, 0, 0))
+    s = Session(proto_cls, creds=(creds_tuple or CREDS) if creds else (0, 0, 0))
     if not creds:
         s.p._verif_no_creds = True
     model = Model(mechs, creds)
@@ -578,6 +578,22 @@ def conforming_clients(ctx, env):
         if name not in ('cookie-wrong', 'cookie-wrong-prefix') and not authed and not ctx_has_new(ctx):
             ctx.report('conforming-client-refused', 'conforming client (%s) was not accepted: %r' % (name, tr),
                        {'scenario': name, 'transcript': tr}, case)
+
+
+def peer_credential_records(ctx, env):
+    """EXTERNAL with the credential records a kernel hands out: the peer's pid is 0 when its process is not visible in the
+    bus's PID namespace (a client in another container on a bind-mounted socket), uid and gid are valid all the same;
+    root; nobody.  A conforming client presenting them is accepted."""
+    for creds in ((0, 1000, 1000), (0, 0, 0), (1, 0, 0), (4242, 65534, 65534), (2**22, 1000, 100), (7, 1000, 0)):
+        for syms in (['AUTH_EXT_uid', 'DATA', 'BEGIN'], ['AUTH_EXT', 'DATA', 'BEGIN'], ['AUTH_BOGUS', 'AUTH_EXT_uid', 'DATA', 'NEGOTIATE_UNIX_FD', 'BEGIN']):
+            case = {'kind': 'peer-creds', 'creds': list(creds), 'symbols': syms}
+            tr = run_sequence(ctx, env, syms, case, creds_tuple=creds)
+            ctx.count('peer_credential_record_runs')
+            if not any(a for (_, _, _, a) in tr):
+                ctx.report('conforming-client-refused', 'a client authenticating with EXTERNAL from a peer whose credential '
+                           'record is (pid, uid, gid) = %r was not accepted: %r' % (creds, tr),
+                           {'creds': list(creds), 'transcript': tr}, case)
+                return
 
 
 def ctx_has_new(ctx):
@@ -894,6 +910,7 @@ def run(ctx):
             other_users_cookie(ctx, env)
             keyring_left_by_a_predecessor(ctx, env)
             pipelined_behind_begin(ctx, env)
+            peer_credential_records(ctx, env)
         ctx.sample({'symbols': ['AUTH_COOKIE_user', 'DATA_right', 'BEGIN'],
                     'meaning': 'AUTH DBUS_COOKIE_SHA1 <hex user>; DATA <hex answer computed from the live challenge>; BEGIN'})
         ctx.sample({'symbols': ['AUTH_BOGUS'] * 6, 'expected': '5 x REJECTED then close'})
